@@ -2,6 +2,7 @@ from __future__ import annotations
 
 import logging
 from collections.abc import Collection, MutableMapping, MutableSequence, MutableSet
+from collections.abc import Mapping as AbcMapping
 from dataclasses import KW_ONLY, InitVar, fields
 from dataclasses import Field as DataClassField
 from enum import Enum
@@ -493,6 +494,12 @@ def is_instance(value: Any, type_: Any) -> bool:
         # Non-tuple collection with no args, assume True
         if not args:
             return True
+
+        if len(args) == 2 and isinstance(value, AbcMapping):
+            # Mappings: check keys and values
+            return all(is_instance(k, args[0]) for k in value.keys()) and all(
+                is_instance(v, args[1]) for v in value.values()
+            )
 
         if len(args) > 1:
             raise RuntimeError(f"Unexpected collection type {type_}. Please, report a bug.")
